@@ -84,6 +84,26 @@ def handle (toks : List String) (impl : Option String) : Option (String × Strin
         verdictStr (Oracle.judge wi wo pol markL out0 inp irL)
       | none => "nospec"
     pure (render wo r, v)
+  -- `utf.convert <wi> <wo> <form> <out0> <in>`: Convert::To between the string types = Transcode under ThrowError appended to the
+  -- init-argument string; the form (std::basic_string / view / C string) of the source does not matter to the model
+  | ["utf.convert", wi, wo, _form, out0, inp] => do
+    let wi ← (if wi == "w" then some 32 else wi.toNat?); let wo ← (if wo == "w" then some 32 else wo.toNat?)
+    let out0 ← parseUnits out0; let inp ← parseUnits inp
+    if !(unitsOk wi inp && unitsOk wo out0) then none
+    let r := transcode wi wo .throwError none inp out0
+    let ans := if r.code == .success then s!"ok {hexUnits wo r.out}" else "exc"
+    let v := match impl with
+      | some i =>
+        match i.splitOn " " with
+        | ["ok", o] => match parseUnits o with
+          | some o => verdictStr (Oracle.judge wi wo .throwError none out0 inp ⟨o, .success, inp.length, 0⟩)
+          | none => "nospec"
+        | ["exc"] =>
+          -- an exception is right exactly when the Spec accepts a failing result for this input (the model's own, judged by the Spec)
+          if r.code == .success then "bad:exception_on_well-formed_text" else verdictStr (Oracle.judge wi wo .throwError none out0 inp r)
+        | _ => "nospec"
+      | none => "nospec"
+    pure (ans, v)
   | _ => none
 
 end BSVerif.Driver.Utf
